@@ -217,6 +217,40 @@ class C11(WigBedProp):
                     elif txt != ref and not any("converter" in v[0] for v in rep.violations):
                         rep.violation(f"converter_{tool}_{k}_t{t}.txt",
                                       f"# {tool} -t {t} emits different text from -t 1\n# input: {src}\n# -t 1: {len(ref or '')} bytes, -t {t}: {len(txt or '')} bytes; stderr: {p.stderr[-200:]}\n")
+        # files whose records reach PAST the chromosome size written in their chromosome tree (a bigBed entry may legally do so; a
+        # bigWig from another writer may): whatever each converter does with the overshoot, it must do the same for every thread count
+        import bbi_codec
+        for kind in ("bigwig", "bigbed"):
+            chroms = [["chr1", 500], ["chr10", 300], ["chr2", 400]]
+            if kind == "bigwig":
+                secs = [dict(chrom=0, type=1, items=[[10, 20, 1.0], [450, 600, 3.0], [600, 700, 4.0]]),
+                        dict(chrom=1, type=1, items=[[0, 5, 2.0], [290, 310, 5.0]]), dict(chrom=2, type=1, items=[[5, 50, 7.0]])]
+            else:
+                secs = [dict(chrom=0, items=[[10, 20, b"a"], [450, 600, b"b"], [480, 900, b"c"]]),
+                        dict(chrom=1, items=[[0, 5, b"d"], [290, 310, b"e"]]), dict(chrom=2, items=[[5, 50, b"f"]])]
+            spec = dict(endian="little", version=4, compress=True, chroms=chroms, sections=secs, chrom_block_size=256, rtree_block_size=256,
+                        rtree_layout="level_order", items_per_slot=1024, zooms=[])
+            try:
+                img = bbi_codec.encode_bigwig(spec) if kind == "bigwig" else bbi_codec.encode_bigbed(spec)
+            except Exception as e_:                           # noqa
+                rep.notes.append(f"overshoot file ({kind}) could not be encoded: {e_}")
+                continue
+            src = os.path.join(d, "overshoot." + ("bw" if kind == "bigwig" else "bb"))
+            open(src, "wb").write(img)
+            tool = "bigwigtobedgraph" if kind == "bigwig" else "bigbedtobed"
+            ref = None
+            for t in (1, 2, 4):
+                outp = os.path.join(d, f"{tool}_overshoot_t{t}.txt")
+                p = subprocess.run([repo_bin(tool), src, outp, "-t", str(t)], capture_output=True, text=True, timeout=120)
+                txt = open(outp).read() if os.path.exists(outp) else None
+                nconv += 1
+                rep.tag("converter_input_reaching_past_the_chromosome_size")
+                if t == 1:
+                    ref = txt
+                elif txt != ref and not any("converter" in v[0] for v in rep.violations):
+                    rep.violation(f"converter_{tool}_overshoot_t{t}.txt",
+                                  f"# {tool} -t {t} emits different text from -t 1 on a file whose records reach past the chromosome size in its chromosome tree\n"
+                                  f"# input: {src}\n# -t 1: {ref!r}\n# -t {t}: {txt!r}\n# stderr: {p.stderr[-200:]}\n")
         rep.coverage["converter_runs"] = nconv
         rep.evals += nconv
 
